@@ -56,6 +56,11 @@ RULE = ("seeded Weibull parameters (loc in [-20,20], scale log-uniform, shape in
         "GUI container (foreign item, bad window / filter); rejected calls on the Weibull object / module inside the parameter histories "
         "(n as text, default n without sample, density below loc, probability above 1, unknown estimator, shape as text, negative "
         "scale); windows as tuple / list / ndarray, filter arguments as tuple / list; every case in a worker thread with a time limit; "
+        "LONG RECORDS (size-conditioned code paths): summary cases with n in {999,1000,1001,1023,1024,1025 | 4095,4096,4097 | 9999,"
+        "10000,10001 | 65535,65537,70001} (quick: one per group), the extreme of the signal (spike or plateau of 2-5 equal samples, "
+        "0.5 / 4 / 8 above the rest; below for minima) in the first / last samples, exactly at or across a multiple of 1000 / 1024 / "
+        "4096 / 10000 / 65536, optional window / filter / resampling; all summary clauses plus: the extreme inside a complete cycle is "
+        "the largest value of the sample of global maxima; "
         "non-trivial = every case; distinct by input")
 QPOOL = [0.0, 0.05, 0.1, 0.37, 0.5, 0.57, 0.9, 0.95, 0.99]
 
@@ -260,7 +265,7 @@ def make_time(tseed, n, tmode="uniform"):
     return np.r_[0.0, np.cumsum(dt)]
 
 
-def make_signal(sig_seed, n, step=1. / 1024, level=0.0, tmode="uniform", tseed=None):
+def make_signal(sig_seed, n, step=1. / 1024, level=0.0, tmode="uniform", tseed=None, event=None):
     """seeded multi-tone + noise signal, dyadic quantisation so that x -> a*x + b (a = 2^k, b integer) is exact in floating
     point; a coarse step gives plateaus and global maxima with exactly equal values. `tmode` selects the sampling (constant or
     non-constant time step), `tseed` the seed of the time array (default: the signal's)"""
@@ -272,6 +277,15 @@ def make_signal(sig_seed, n, step=1. / 1024, level=0.0, tmode="uniform", tseed=N
     nr = np.random.RandomState(rng.randint(0, 10 ** 6))
     x += 0.2 * nr.standard_normal(n)
     x = np.round(x / step) * step + level
+    for ev in ([event] if isinstance(event, dict) else event or []):
+        # long records: the interesting event (the extreme, a plateau of `width` equal samples when flat) at a chosen position --
+        # the first / last samples, exactly at / across a multiple of 1000 / 1024 / 4096 / ...; height a multiple of 1/2 (exact)
+        p0 = ev["pos"] if ev["pos"] >= 0 else n + ev["pos"]
+        p1 = min(n, p0 + ev["width"])
+        if ev.get("flat"):
+            x[p0:p1] = (np.max(x) if ev["height"] > 0 else np.min(x)) + ev["height"]
+        else:
+            x[p0:p1] += ev["height"]
     return t, x
 
 
@@ -566,7 +580,7 @@ def summary_clauses(inp, dist=None):
     from qats.app.funcs import calculate_stats
     fails = []
     tmode = inp.get("tmode", "uniform")
-    t, x = make_signal(inp["sig_seed"], inp["n"], inp.get("step", 1. / 1024), inp.get("level", 0.0), tmode)
+    t, x = make_signal(inp["sig_seed"], inp["n"], inp.get("step", 1. / 1024), inp.get("level", 0.0), tmode, event=inp.get("event"))
     n = inp["n"]
     kw = summary_kwargs(inp)
     sdv, ismin = float(inp["statsdur"]), inp["is_minima"]
@@ -626,6 +640,24 @@ def summary_clauses(inp, dist=None):
         dist("stats:%s:%s:%s:%s:%s" % ("min" if ismin else "max", tmode, proc, "tied-peaks" if ties else "distinct-peaks",
                                        "q-ascending" if qlist == sorted(qlist) else "q-unordered"))
         dist("stats:statsdur-as-%s" % type(statsdur).__name__)
+    if "resample" not in kw and "filterargs" not in kw:
+        # consistent with its parts: when the extreme of the (windowed) signal lies between two crossings of the mean level in the
+        # same direction -- the signal is on the other side of the mean somewhere before it and, after it, goes to the other side
+        # and comes back -- it is the global maximum (minimum) of its cycle, hence the largest (smallest) value of the sample
+        tw = kw.get("twin", (t_given[0], t_given[-1]))
+        xg = sign * x_given[(t_given >= tw[0]) & (t_given <= tw[1])]
+        mg = math.fsum(xg) / xg.size
+        k0, k1 = int(np.argmax(xg)), xg.size - 1 - int(np.argmax(xg[::-1]))          # first / last position of the extreme
+        below_after = np.nonzero(xg[k1:] < mg)[0]
+        complete = bool(np.any(xg[:k0] < mg)) and below_after.size > 0 and bool(np.any(xg[k1 + below_after[0]:] > mg))
+        if complete and abs(float(np.min(np.abs(xg - mg)))) > 1e-9:
+            got = float(np.max(sign * np.asarray(s["sample"], dtype=float)))
+            if got != float(xg[k0]):
+                fails.append(("summary consistent with its parts: the %s of the signal lies in a complete cycle between crossings of the "
+                              "mean level, so it is the %s value of the sample of global %s the distributions are fitted to (position "
+                              "%d..%d of %d samples)" % ("minimum" if ismin else "maximum", "smallest" if ismin else "largest",
+                                                         "minima" if ismin else "maxima", k0, k1, xg.size), {},
+                              sign * float(xg[k0]), sign * got))
     missing = [pkey(q) for q in qlist if pkey(q) not in s]
     if missing:
         return [("the summary has one estimate p_XX per requested quantile", {}, [pkey(q) for q in qlist], missing)]
@@ -795,6 +827,45 @@ def gen_summary(rng, fanout, seed):
                 unit=rng.choice([0, 0, 0, -40, -34, 30]),
                 twtype=rng.choice(["tuple", "tuple", "list", "array"]), ftype=rng.choice(["tuple", "list"]),
                 faults=gen_faults(rng, fanout))
+
+
+LONG_GROUPS = ((999, 1000, 1001, 1023, 1024, 1025), (4095, 4096, 4097), (9999, 10000, 10001), (65535, 65537, 70001))
+LONG_BLOCKS = (1000, 1024, 4096, 10000, 65536)
+
+
+def gen_long_summary(rng, n, seed, fanout=False):
+    """summary case on a LONG record (size-conditioned code paths): the extreme of the signal (a spike, or a plateau of equal
+    samples) in the first / last samples, exactly at a multiple of 1000 / 1024 / 4096 / 10000 / 65536 or spanning it"""
+    inp = gen_summary(rng, fanout, seed)
+    ismin = inp["is_minima"]
+    blocks = [B for B in LONG_BLOCKS if B + 40 < n]
+    # two events per record: the extreme the summary's variant is about (maximum, or minimum for minima) and the opposite extreme;
+    # one of them in the first / last samples, the other at / across a block boundary (short records: mid-record)
+    ends, inner = rng.choice(["first", "last", "last"]), rng.choice(["at", "span", "span"] if blocks else ["interior"])
+    wheres = [ends, inner] if rng.random() < 0.5 else [inner, ends]
+    events = []
+    for where, sgn in zip(wheres, (-1.0, 1.0) if ismin else (1.0, -1.0)):
+        width = rng.choice([1, 2, 3, 5])
+        if where == "first":
+            pos = rng.choice([0, 1, 2])
+        elif where == "last":
+            pos = -(width + rng.choice([0, 0, 1, 2]))
+        elif where == "interior":
+            pos = n // 2
+        else:
+            B = rng.choice(blocks[-2:])
+            m = B * rng.randint(1, (n - 40) // B)
+            pos = m if where == "at" else m - rng.randint(1, width - 1) if width > 1 else m - 1
+        events.append(dict(pos=pos, width=width, height=sgn * rng.choice([0.5, 4.0, 8.0]), flat=width > 1))
+    kw = {}
+    mode = rng.random()
+    if mode < 0.25:
+        kw["twin"] = [0.5 * (n // 50), 0.5 * (n - 1)] if ends == "last" else [0.0, 0.5 * (n - 1 - n // 50)]
+    elif mode < 0.35:
+        kw["filterargs"] = ["lp", 0.2]
+    elif mode < 0.45:
+        kw["resample"] = rng.choice([0.25, 1.0])
+    return dict(inp, n=n, tmode="uniform", kwargs=kw, long="+".join(wheres), event=events)
 
 
 # ---- Weibull -> Gumbel formulas ------------------------------------------------------------------------------------------------------
@@ -997,6 +1068,14 @@ def run(chk):
     S = 30 if chk.quick else 300
     cases = [c for c in corpus if c.get("kind") == "summary"]
     cases += [gen_summary(rng, k < (8 if chk.quick else 40), chk.seed) for k in range(S)]
+    # long records (size-conditioned code paths): n just below / at / above 1000, 1024, 4096, 10000 and beyond 65536
+    if chk.quick:
+        long_n = [rng.choice(g) for g in LONG_GROUPS]
+    else:
+        long_n = [n_ for g in LONG_GROUPS for n_ in g] * 2
+    for k, n_ in enumerate(long_n):
+        cases.append(gen_long_summary(rng, n_, chk.seed, fanout=(k == 1) if chk.quick else k % 5 == 0))
+        chk.dist("stats:long:n%d:%s" % (n_, cases[-1]["long"]))
     for inp in cases:
         chk.count("stats")
         chk.nontriv(repr(inp))
